@@ -2,6 +2,7 @@ CONSTANTS
   MaxSize = 10
   Prof <- ProfCore
   MathTable <- NoTable
+  GenBackend = "any"
 INIT GInit
 NEXT GNext
 INVARIANT Export
